@@ -1,13 +1,14 @@
 // Package c09: the parser is total and literals round-trip through quoting.
 //
 // Bounded-exhaustive enumeration (E1) of
-//  (a) token soups up to length L over a token alphabet, plus every prefix and
-//      every single-byte deletion of corpus seed files: no panic, positions sane;
-//  (b) every string/byte string up to length L over a hostile alphabet x every
-//      quoting Form: Unquote(Quote(s)) == s, scanner sees one STRING token,
-//      parser sees one BasicLit, evaluation gives s;
-//  (c) every literal-candidate spelling up to length L: scanner, parser and
-//      literal package agree on validity.
+//
+//	(a) token soups up to length L over a token alphabet, plus every prefix and
+//	    every single-byte deletion of corpus seed files: no panic, positions sane;
+//	(b) every string/byte string up to length L over a hostile alphabet x every
+//	    quoting Form: Unquote(Quote(s)) == s, scanner sees one STRING token,
+//	    parser sees one BasicLit, evaluation gives s;
+//	(c) every literal-candidate spelling up to length L: scanner, parser and
+//	    literal package agree on validity.
 package c09
 
 import (
@@ -150,6 +151,11 @@ func run(r *core.Run) {
 			})
 		}
 	}
+	// (c') multi-line string and bytes literals: every body of one line of <=3
+	// tokens or two lines of <=2 tokens over an alphabet of escapes, quote
+	// runs, blanks and a hash, for both quote kinds, 0-1 hashes, with and
+	// without indentation
+	multiLine(r)
 	// (a) corpus prefixes / deletions
 	r.Section("soup: corpus prefixes+deletions")
 	seeds := gen.Corpus([]string{"cue/parser", "cue/format/testdata", "doc/tutorial", "cue/testdata/eval"}, 1200)
@@ -520,6 +526,111 @@ func verdict(r *core.Run, c kase, cat string, scanOK, parseOK, litOK bool) {
 		}
 		return
 	}
-	r.Violation(fmt.Sprintf("spell: %s validity disagreement scanner=%v parser=%v literal=%v: %s", cat, scanOK, parseOK, litOK, c.Src), c,
+	srcKey := c.Src
+	if strings.Contains(srcKey, "\n") {
+		srcKey = fmt.Sprintf("%q", srcKey)
+	}
+	r.Violation(fmt.Sprintf("spell: %s validity disagreement scanner=%v parser=%v literal=%v: %s%s", cat, scanOK, parseOK, litOK, srcKey, multiLineTags(c.Src)), c,
 		fmt.Sprintf("spelling %q", c.Src))
+}
+
+// multiLineTags classifies a multi-line literal spelling for violation keys.
+func multiLineTags(s string) string {
+	h := 0
+	for h < len(s) && s[h] == '#' {
+		h++
+	}
+	if len(s) < h+4 || (s[h] != '"' && s[h] != '\'') || s[h+1] != s[h] || s[h+2] != s[h] || s[h+3] != '\n' {
+		return ""
+	}
+	q := strings.Repeat(string(s[h]), 3)
+	lines := strings.Split(s, "\n")
+	if len(lines) < 3 {
+		return ""
+	}
+	esc := "\\" + strings.Repeat("#", h)
+	tags := ""
+	closing, contin := false, false
+	for _, l := range lines[1 : len(lines)-1] {
+		if strings.HasPrefix(strings.TrimLeft(l, " \t"), q) {
+			closing = true
+		}
+		// does the line end in an unescaped escape introducer?
+		i := 0
+		for i < len(l) {
+			if strings.HasPrefix(l[i:], esc) {
+				if i+len(esc) == len(l) {
+					contin = true
+				}
+				i += len(esc) + 1
+				continue
+			}
+			i++
+		}
+	}
+	if closing {
+		tags += " [body-line-starts-with-the-closing-delimiter]"
+	}
+	if contin {
+		tags += " [escape-introducer-at-end-of-line]"
+	}
+	return tags
+}
+
+func multiLine(r *core.Run) {
+	r.Section("spell: multi-line string/bytes literals, bodies of 1 line (<=3 tokens) and 2 lines (<=2 tokens each)")
+	lineToks := func(q string) []string {
+		return []string{"\\" + q, "\\n", "\\\\", "\\t", q, q + q, q + q + q, "a", " ", "#", "\\#n", "\\x41"}
+	}
+	linesUpTo := func(toks []string, n int) []string {
+		out := []string{""}
+		for l := 1; l <= n; l++ {
+			gen.Tuples(l, len(toks), func(ix []int) bool {
+				var sb strings.Builder
+				for _, i := range ix {
+					sb.WriteString(toks[i])
+				}
+				out = append(out, sb.String())
+				return true
+			})
+		}
+		return out
+	}
+	for _, q := range []string{`"`, "'"} {
+		toks := lineToks(q)
+		one := linesUpTo(toks, 3)
+		two := linesUpTo(toks, 2)
+		for hashes := 0; hashes <= 1; hashes++ {
+			h := strings.Repeat("#", hashes)
+			for _, indent := range []string{"", "\t"} {
+				emit := func(body []string) bool {
+					if !r.Mine() {
+						return !r.Expired()
+					}
+					var sb strings.Builder
+					sb.WriteString(h + q + q + q + "\n")
+					for _, l := range body {
+						sb.WriteString(indent + l + "\n")
+					}
+					sb.WriteString(indent + q + q + q + h)
+					c := mk("spell", sb.String())
+					c.Cat = "str"
+					r.Guard(c, func() { checkSpell(r, c) })
+					return true
+				}
+				for _, l := range one {
+					if !emit([]string{l}) {
+						return
+					}
+				}
+				for _, l1 := range two {
+					for _, l2 := range two {
+						if !emit([]string{l1, l2}) {
+							return
+						}
+					}
+				}
+			}
+		}
+	}
 }
